@@ -89,4 +89,15 @@ theorem clamp_src_eq_model (g : S_twcc_packetArrivalTimeMap) (m : ArrivalMap)
   rw [hb, he]
   split <;> simp_all <;> omega
 
+/-- ★ `chunk.reset` as written in the source yields the model's empty chunk state (the `{}` that `encode` leaves behind). -/
+theorem reset_src_eq_model (c : S_twcc_chunk) : chunkRel (twcc_chunk_reset c) {} := by
+  simp [twcc_chunk_reset, chunkRel]
+
+/-- ★ `BeginSequenceNumber` / `EndSequenceNumber` as written in the source return the model's window bounds. -/
+theorem bounds_src_eq_model (g : S_twcc_packetArrivalTimeMap) (m : ArrivalMap)
+    (hb : g.beginSequenceNumber = m.beginSN) (he : g.endSequenceNumber = m.endSN) :
+    twcc_packetArrivalTimeMap_BeginSequenceNumber g = m.beginSN ∧
+    twcc_packetArrivalTimeMap_EndSequenceNumber g = m.endSN := by
+  simp [twcc_packetArrivalTimeMap_BeginSequenceNumber, twcc_packetArrivalTimeMap_EndSequenceNumber, hb, he]
+
 end Interceptor.Facts.FnTwcc
